@@ -13,7 +13,7 @@ import (
 )
 
 func init() {
-	register(&Suite{Name: "sess", Gen: genSess, Exec: execSess})
+	register(&Suite{Name: "sess", Gen: genSess, Exec: execSess, Isolated: true})
 }
 
 func fnv64(b []byte) uint64 {
